@@ -58,6 +58,18 @@ CLAIMS.update({
    note="trusted base = the five rand/arbitrary contracts listed in evidence", ref="4/C18"),
 })
 
+CLAIMS.update({
+ "C07": dict(cat="other", tech="whole-program effect analysis on the resolved call graph (deny list, hash-iteration order rule, pointer-to-integer rule)",
+   text="Every external callee reachable from Generator::generate / generate_from_arbitrary (incl. closures, fn items and all impls behind dyn Mutator) is classified deterministic or reported; time/env/pid/thread/OS-RNG/hash-seed/address/I-O/shared-state callees are denied (from_os_rng only on the seed==None edge); every HashMap/HashSet iteration needs a sort that dominates each indexed use; pointer->integer only inside StackObjectRef::hash; statics are immutable or a OnceLock with a constant initialiser; the CLI draws OS randomness only when neither --seed nor --protocol is given.",
+   note="trusted: rand_chacha/arbitrary/phf are deterministic; rayon distributes independent closure calls", ref="4/C07"),
+ "C09": dict(cat="other", tech="panic/Err site inventory from MIR, discharged by exhaustive abstract interpretation (block coverage) with RefCell borrow typestate",
+   text="All Assert terminators and calls to panicking functions in bodies reachable from the public API are enumerated; each is discharged because the exhaustive abstract interpretation (all opcode arms from all invariant states safe+unsafe, collapse phase, generate_internal, mutators, entropy adapters, entry points/builders with symbolic arguments incl. NaN rates and inverted ranges) executes it without any path panicking, or never reaches it; Err construction, unbounded loops and empty results are reported.",
+   note="not decided: stack exhaustion by recursive drop, allocation failure, panics inside dependencies", ref="4/C09"),
+ "C14": dict(cat="other", tech="ownership-shape rules: cycle capability of the Rc graph, storing sites from the interpreter's events, tear-down search, leak-call deny list",
+   text="StackObjectRef is reachable from its own payload; every opcode that stores a live handle into an existing cell is listed from the interpreter's StoreInto events and, with an alias-creating opcode and no tear-down, reported (six known findings, each replayed against the real code); no mem::forget/Box::leak/Rc::into_raw and no handle-holding static.",
+   note="the property is violated today (known findings D9); the check detects new storing sites / deliberate leaks, not heap equality itself", ref="4/C14"),
+})
+
 NA_DEFAULT = "check not built yet (build in progress; see DESIGN.md section 6 build order)"
 NA = {}
 
